@@ -60,9 +60,24 @@ def project_line(proj, line):
         return ' '.join(out)
     return line
 
+RUNNER_KINDS = ('enter', 'post', 'abort', 'start', 'end', 'discard', 'exit')
+
+def canon_tickets(lines):
+    """tickets are an internal counter of the crate: rename them by order of first appearance, so that a change of
+    their start value or stride (which no property constrains) is not reported; equal tickets stay equal"""
+    ren, out = {}, []
+    for l in lines:
+        ws = l.split(' ')
+        if ws and ws[0] in RUNNER_KINDS and len(ws) >= 3:
+            ws[2] = ren.setdefault(ws[2], 'k%d' % len(ren))
+            l = ' '.join(ws)
+        out.append(l)
+    return out
+
 def project(projname, lines):
     proj = PROJ[projname]
     out = []
+    lines = canon_tickets(lines)
     for l in lines:
         p = project_line(proj, l)
         if p is not None: out.append(p)
